@@ -454,6 +454,33 @@ func handlerReachable(p *Prog) map[*ssa.Function]bool {
 
 func checkC07Reread(p *Prog, r *Report, ru *Rule, sh *ssa.Function) {
 	tmplf := p.Field(hsrvPkg, "Server", "tmplf")
+	if nil != tmplf {
+		/* "The configured template file" is the name the operator gave, as
+		it resolves at each request: what is kept must not be the outcome
+		of looking at the file system at start-up (a symlink resolved then
+		is a different file after the link has been re-pointed). */
+		for _, st := range p.storesToField(tmplf) {
+			c := fnName(st.Parent()) + ":template-path"
+			var fsCall string
+			operandsReach(st.Val, func(v ssa.Value) bool {
+				call, ok := v.(*ssa.Call)
+				if !ok {
+					return false
+				}
+				switch n := calleeName(call.Common()); {
+				case "path/filepath.EvalSymlinks" == n, "path/filepath.Glob" == n, strings.HasPrefix(n, "os.") && "os.Getenv" != n && "os.ExpandEnv" != n && "os.Getwd" != n:
+					fsCall = n
+					return true
+				}
+				return false
+			})
+			if "" != fsCall {
+				ru.Bad(c, posOf(st), "the template path kept by the server is the result of %s at start-up, not the configured name: edits which replace or re-point the file (a symlinked release, a rename into place) are never seen, and removing the old target breaks every later request", fsCall)
+			} else {
+				ru.OK(c, posOf(st), "the configured name is kept as given (no file-system lookup at start-up)")
+			}
+		}
+	}
 	if nil == tmplf {
 		ru.Unproven("readTemplate", token.NoPos, "Server.tmplf not found")
 		return
